@@ -1647,8 +1647,12 @@ class Escape:
             d = dotted(b.func)
             if isinstance(b.func, ast.Attribute) and b.func.attr in ("partition", "rpartition"):
                 return 3
-            if isinstance(b.func, ast.Attribute) and b.func.attr in ("split", "rsplit", "splitlines") :
-                return 1 if b.func.attr != "splitlines" else 0
+            if isinstance(b.func, ast.Attribute) and b.func.attr in ("split", "rsplit", "splitlines"):
+                # lemma: x.split(sep) with an explicit separator has at least one piece (exactly [x] when sep does not
+                # occur); x.split() / x.split(None) splits on whitespace runs and is EMPTY for an empty or all-whitespace x
+                sep = b.args[0] if b.args else kwarg(b, "sep")
+                explicit = sep is not None and not (isinstance(sep, ast.Constant) and sep.value is None)
+                return 1 if b.func.attr != "splitlines" and explicit else 0
         if isinstance(b, ast.Name):
             # dominating length test
             name = b.id
